@@ -290,4 +290,23 @@ func (v *ValueStore) StartGC(ctx context.Context, interval time.Duration)
   modifies *
   ensures [at-most-one-sweeper] $n <= 1 && imp(old(v.gcStarted), $n == 0)
   ghost at go(gcLoop): assert(held(v.gcMu) && v.gcStarted && $arg1 == interval && $arg2 == v.gcClosed && v.gcClosed != nil && v.maxRecordAge > 0 && interval > 0 && ctxRoot($arg0) == old(ctxRoot(ctx))); $n = $n + 1
+
+# ---- options of the provider store (C07): each sets exactly its own field ---------
+funclit 0 in CleanupInterval(d time.Duration) Option
+  props C07
+  requires pm != nil
+  modifies pm.cleanupInterval
+  ensures result == nil && pm.cleanupInterval == d
+
+funclit 0 in ProviderAddrTTL(d time.Duration) Option
+  props C07
+  requires pm != nil
+  modifies pm.providerAddrTTL
+  ensures result == nil && pm.providerAddrTTL == d
+
+funclit 0 in ProvideValidity(d time.Duration) Option
+  props C07
+  requires pm != nil
+  modifies pm.provideValidity
+  ensures result == nil && pm.provideValidity == d
 @*/
